@@ -342,6 +342,7 @@ def scan_fns(text):
         p_close = ex.match_brace(text, p_open, skip)
         j = p_close + 1
         end = None
+        body_open = None
         while j < len(text):
             if skip[j]:
                 j += 1
@@ -361,6 +362,7 @@ def scan_fns(text):
                     j = c + 1
                     continue
                 end = c
+                body_open = j
                 break
             if ch in '([':
                 j = ex.match_brace(text, j, skip) + 1
@@ -379,7 +381,7 @@ def scan_fns(text):
             'attrs': m.group(1) or '',
             'line_start': text.count('\n', 0, start) + 1,
             'line_end': text.count('\n', 0, end) + 1,
-            'start': start, 'end': end + 1,
+            'start': start, 'end': end + 1, 'body_open': body_open,
             'text': text[start:end + 1],
         })
     return res
